@@ -221,6 +221,21 @@ PROPS = {
         "assumptions": ["input-space sampling executed inside the simulator; the simulator's own contribution is the file-system path monitor, task settling and the restart",
                         "body-size limit (512 MB) is not exercised; an unknown field is not required to be rejected (the statement lists non-JSON and wrong types)"],
     },
+    "C17": {
+        "level": "exploration", "quick": 1000, "thorough": 60000, "batch": 25,
+        "rule": ("the real AIProxy.ServeHTTP over a simulated engine with a stub embedder (prompts sit at known angles on the unit circle, so every "
+                 "metric distance is known exactly) and a stub upstream RoundTripper that counts requests; configuration per run: deny-pattern subset, "
+                 "forbidden-prompt index (cosine or euclidean), firewall threshold, cache threshold, TTL 0/5/60 s, firewall/cache on or off, cache index "
+                 "language; 6-25 steps: chat requests (`messages` and `prompt` shapes, multi-turn, mixed case, prompts carrying the gateway's own task "
+                 "markers, streaming or not), simulated-clock advances across the TTL, upstream error status, cache invalidations over seeded entries "
+                 "citing doc_1/doc_2/doc_10/doc. Oracle: deny pattern or embedding within the configured distance of a forbidden prompt -> 403 and the "
+                 "upstream counter does not move; otherwise never 403; a non-streaming request within the cache distance of a non-expired answered one -> "
+                 "stored body verbatim + X-Kektor-Cache: HIT + no upstream call; otherwise exactly one upstream call; invalidation removes exactly the "
+                 "entries citing the document. Distances within 10% of a threshold and ages on the TTL boundary are not judged. Non-trivial: >=3 chat "
+                 "requests; distinct = program+config hash."),
+        "real_vs_stub": REAL + "; real: pkg/proxy pipeline; stubs: embedder (prompt -> vector table), upstream LLM (RoundTripper), HTTP transport (ServeHTTP + recorder); RAG injection disabled",
+        "assumptions": ["thresholds are distances (smaller = more similar), as documented in proxy.yaml / config_loader.go", "asynchronous cache saves are settled by quiescence before the next request"],
+    },
 }
 
 
@@ -230,6 +245,12 @@ NOT_APPLICABLE["C20"] = ("pure functions of their input (text analysis, chunking
                          "no schedule, fault or interleaving for a simulator to decide; property-based testing territory, see DESIGN.md section 7")
 
 MANIFEST_TEXT = {
+    "C17": {
+        "text": "Seeded exploration of request sequences through the real gateway pipeline with exact, harness-known embedding distances, a counting upstream stub and the simulated clock for TTL expiry; a reference admission/cache model decides block / hit / forward for every request and which entries an invalidation must remove.",
+        "design_ref": "DESIGN.md section 6 C17",
+        "note": "Embedder and upstream are stubs by design of the property. Prompts are drawn from a fixed pool placed clearly inside or outside each threshold; borderline distances are skipped.",
+        "technique": "deterministic simulation: seeded request/clock/invalidation sequences through ServeHTTP with stub embedder and upstream, reference admission+cache model",
+    },
     "C19": {
         "text": "Seeded exploration of mutated request bodies and hostile resource names through the real handler chain, with the file-system event stream of the instrumented engine as a confinement monitor (every path of every call, at request time and during replay after restart), a captured-log check for the panic-recovery path, and read-out comparison for 4xx answers.",
         "design_ref": "DESIGN.md section 6 C19",
